@@ -20,7 +20,7 @@ CONFIG = dict(
           "candidate) / = the harness's own per-particle best raw objective / not stale, global best = min personal best "
           "and a member; run-vel: EVERY velocity update of those runs re-emitted as a prepared `vel` case with the exact "
           "words consumed, so the model re-derives it. Non-trivial = not a malformed case; distinct = distinct input line."),
-    nontrivial=lambda inp: "none" not in inp[:40] and not inp.startswith("(velinit"),
+    nontrivial=lambda inp: not inp.startswith("(velinit") and "(gbest none)" not in inp,
     trusted_base=[
         "rand 0.8.8: gen::<f64>() = (next_u64() >> 11) * 2^-53 (re-checked against the consumed words on every vel case); "
         "gen_range for the initial velocities is witnessed (legality checked), not modelled",
